@@ -26,6 +26,7 @@ type FakeRelay struct {
 	Fault   func(op string, sid string, n int) RelayFault // consulted for every send / recv
 	counts  map[string]int
 	Latency time.Duration
+	FailDel int  // the next FailDel DelCipherBox calls fail with Unavailable
 	down    bool // outage: every RPC and every operation on an open stream, CloseSend included, fails
 }
 
@@ -113,6 +114,12 @@ func (r *FakeRelay) DelCipherBox(ctx context.Context, in *hashmailrpc.CipherBoxA
 	r.mu.Lock()
 	defer r.mu.Unlock()
 	k := sidKey(in.Desc.StreamId)
+	if r.FailDel > 0 {
+		// a transient relay error: the box stays
+		r.FailDel--
+		r.log("del-box-err", k, nil)
+		return nil, errRelayDown
+	}
 	if b, ok := r.boxes[k]; ok {
 		delete(r.boxes, k)
 		close(b.notify)
